@@ -30,10 +30,13 @@ ReopenOK == FlushOnClose /\ (TombLog \/ ~Removed)
 
 Op ==
     \/ "ins" \in OpSet /\ S.nv < MaxIns /\ \E k \in Keys : Insert(k)
+    \/ "ins_nt" \in OpSet /\ S.nv < MaxIns /\ \E k \in Keys : InsertNoTurn(k)
     \/ "rem" \in OpSet /\ \E k \in Keys : Remove(k)
     \/ "get" \in OpSet /\ \E k \in Keys : Get(k)
+    \/ "sload" \in OpSet /\ \E k \in Keys : SLoad(k)
     \/ "fetch" \in OpSet /\ S.nv < MaxIns /\ \E k \in Keys : Fetch(k)
     \/ "evict_all" \in OpSet /\ EvictAll
+    \/ "evict_all_nt" \in OpSet /\ EvictAllNoTurn
     \/ "hold" \in OpSet /\ (Hold \/ Unhold)
     \/ "gate" \in OpSet /\ (GateOn \/ GateOff \/ GateStep)
     \/ "close" \in OpSet /\ Close
